@@ -13,7 +13,8 @@ from pqv.props.c04 import perm_def
 
 THEOREMS = ["Pq.C01.fockRep_eq_permSpec", "Pq.C01.passive_amplitude_formula", "Pq.C01.gauss_passive_is_congruence",
             "Pq.C01.number_conserving_block_structure"]
-FILES = ["PqVerif/Model/FockRep.lean", "PqVerif/Lemmas/FockRepLaws.lean", "PqVerif/Props/C01.lean"]
+FILES = ["PqVerif/Model/FockRep.lean", "PqVerif/Lemmas/FockRepLaws.lean", "PqVerif/Lemmas/PermSpec.lean", "PqVerif/Lemmas/Glynn.lean",
+         "PqVerif/Props/C01.lean"]
 HBARS = [0.5, 1.0, 2.0, 3.7]
 
 
